@@ -21,6 +21,7 @@ const (
 	ctxBlockNumber   = uint64(300)
 	ctxTime          = uint64(1500000000)
 	ctxDifficulty    = uint64(0x20000)
+	maxTraceSteps    = 200000 // steps recorded when the culprit of a disagreement is looked for
 )
 
 type address [20]byte
@@ -361,4 +362,73 @@ func symptom(ref, it *outcome) string {
 		return "return-data"
 	}
 	return "state-encoding"
+}
+
+// ---------------------------------------------------------------- naming the culprit of a disagreement
+
+// stepRec: what one side's tracer saw before one instruction (or at a fault).
+type stepRec struct {
+	Depth int
+	PC    uint64
+	Op    byte
+	Fault bool
+	SLen  int
+	Top   string
+	Mem   uint64
+}
+
+func memDigest(b []byte) uint64 {
+	h := uint64(14695981039346656037)
+	for _, c := range b {
+		h ^= uint64(c)
+		h *= 1099511628211
+	}
+	return h ^ uint64(len(b))
+}
+
+// culprit compares the two instruction traces of a disagreeing case and names
+// the instruction whose effect differs first: (opcode byte, call depth).
+// ok=false: the traces are identical (the difference is not visible on the
+// stack or in memory).
+func culprit(ref, it []stepRec) (op byte, depth int, ok bool) {
+	n := len(ref)
+	if len(it) < n {
+		n = len(it)
+	}
+	i := 0
+	for i < n && ref[i] == it[i] {
+		i++
+	}
+	if i == len(ref) && i == len(it) {
+		return 0, 0, false
+	}
+	if i < n {
+		a, b := ref[i], it[i]
+		if a.Depth == b.Depth && a.PC == b.PC && a.Op == b.Op {
+			if a.Fault != b.Fault {
+				return a.Op, a.Depth, true // the instruction itself is accepted by one side only
+			}
+			// same instruction about to run on different data: blame the previous instruction of this frame
+			for j := i - 1; j >= 0; j-- {
+				if ref[j].Depth == a.Depth {
+					return ref[j].Op, ref[j].Depth, true
+				}
+				if ref[j].Depth < a.Depth {
+					return ref[j].Op, ref[j].Depth, true // the frame started differently: blame the instruction that entered it
+				}
+			}
+			return a.Op, a.Depth, true
+		}
+	}
+	// control flow differs (or one side stopped): blame the last common step
+	if i > 0 {
+		return ref[i-1].Op, ref[i-1].Depth, true
+	}
+	if len(ref) > 0 {
+		return ref[0].Op, ref[0].Depth, true
+	}
+	if len(it) > 0 {
+		return it[0].Op, it[0].Depth, true
+	}
+	return 0, 0, false
 }
